@@ -928,6 +928,20 @@ func engineOracles(c *Ctx, ec *eCase, recs []reqRec) {
 				}
 			}
 		}
+		// ---- C18: the engine's first function is an external function like any other: it is called in the language the session
+		// had when the request came in (also after save and resume)
+		if prev != nil && prev.x == "ok" && prev.state != "nostate" && prev.cont && !refusedInput(in) {
+			for _, cl := range r.calls {
+				if cl.sym != "_first" {
+					continue
+				}
+				ok := (cl.lang == nil && prev.lang == nil) || (cl.lang != nil && prev.lang != nil && *cl.lang == *prev.lang)
+				if !ok {
+					c.Fail("C18", "first-function-language", fmt.Sprintf("%s: the first function was called in language %s, the session language is %s", where, optS(cl.lang), optS(prev.lang)))
+				}
+				break
+			}
+		}
 		// ---- C18: lookups carry the session language (requests without a language change)
 		if prev != nil && prev.x != "panic" {
 			same := (prev.lang == nil && r.lang == nil) || (prev.lang != nil && r.lang != nil && *prev.lang == *r.lang)
